@@ -21,6 +21,23 @@ MU = Earth.mu
 V0 = math.sqrt(MU / L0)
 T0 = L0 / V0
 TWO_PI = 2 * math.pi
+FRAME = "EME2000"
+
+
+def set_body(which):
+    """The central body is the one of the state's frame: 'any central body mu' of the property.  The lattice is in canonical units
+    (mu = 1, unit length L0), so another body only changes the scales - and every place where the code takes mu from."""
+    global MU, V0, T0, L0, FRAME
+    if which in (None, "earth"):
+        return
+    from beyond.constants import Moon, Body
+    from beyond.frames import frames as fr, orient, center
+    body = Moon if which == "moon" else Body("VfHeavy", mass=3.0e29, equatorial_radius=4.0e8)
+    L0 = 2.5e6 if which == "moon" else 9.0e9
+    MU = body.mu
+    V0 = math.sqrt(MU / L0)
+    T0 = L0 / V0
+    FRAME = fr.Frame("Vf" + which.capitalize(), orient.EME2000, center.Center("Vf" + which.capitalize() + "C", body=body))
 
 FORMS = ["cartesian", "keplerian", "keplerian_eccentric", "keplerian_mean", "keplerian_circular", "keplerian_mean_circular",
          "equinoctial", "tle", "spherical", "cylindrical"]
@@ -132,6 +149,8 @@ def main(inp, outp):
     with open(inp) as fh:
         job = json.load(fh)
     res = {"evaluations": 0, "traces": 0, "clauses": {}, "violations": [], "samples": [], "nontrivial": []}
+    set_body(job.get("body"))
+    btag = "" if job.get("body") in (None, "earth") else f" [central body: {job['body']}, mu = {MU:.6g}]"
 
     def clause(name, ok, key, what, data):
         c = res["clauses"].setdefault(name, {"checked": 0, "failed": 0})
@@ -139,7 +158,7 @@ def main(inp, outp):
         if not ok:
             c["failed"] += 1
             if sum(1 for v in res["violations"] if v["key"] == key) < 4:
-                res["violations"].append({"key": key, "what": what, "data": data})
+                res["violations"].append({"key": key, "what": what + btag, "data": dict(data, body=job.get("body", "earth")) if isinstance(data, dict) else data})
 
     primes = job.get("primes")
     prev = None
@@ -148,7 +167,7 @@ def main(inp, outp):
         # history: the derived quantities are read, the SAME object is then given another state, and they are read again
         if prev is not None:
             pq, pexp = prev
-            sv = StateVector(pexp["cartesian"], DATE, "cartesian", "EME2000")
+            sv = StateVector(pexp["cartesian"], DATE, "cartesian", FRAME)
             _ = (sv.infos.v, sv.infos.energy, sv.infos.rp, sv.infos.r)
             sv[:] = exp["cartesian"]
             inf2 = sv.infos
@@ -164,7 +183,7 @@ def main(inp, outp):
                 "units": {"L0": L0, "mu": MU}, "how": "StateVector(expected elements of the source form, date, source, EME2000).copy(form=target)"}
         res["traces"] += 1
         for src in exp:
-            sv = StateVector(exp[src], DATE, src, "EME2000")
+            sv = StateVector(exp[src], DATE, src, FRAME)
             for dst in exp:
                 if dst == src:
                     continue
@@ -179,13 +198,13 @@ def main(inp, outp):
                 clause("every form's six numbers equal their textbook definitions, from every source form", err <= 1.0,
                        f"forms/definition[{src}->{dst}]", f"{src}->{dst} ({'hyperbolic' if hyp else 'elliptic'}): got {got} expected {exp[dst]} (error {err:.3g} x tolerance)", data)
         # Kepler's equation for equivalent mean anomalies (M < 0, M > pi, shifted by a turn)
-        kep = StateVector(exp["keplerian_eccentric"], DATE, "keplerian_eccentric", "EME2000")
+        kep = StateVector(exp["keplerian_eccentric"], DATE, "keplerian_eccentric", FRAME)
         Eref = exp["keplerian_eccentric"][5]
         Mref = exp["keplerian_mean"][5]
         for shift in ((0.0, -TWO_PI, TWO_PI) if not hyp else (0.0,)):
             arr = list(exp["keplerian_mean"])
             arr[5] = Mref + shift
-            E = float(StateVector(arr, DATE, "keplerian_mean", "EME2000").copy(form="keplerian_eccentric")[5])
+            E = float(StateVector(arr, DATE, "keplerian_mean", FRAME).copy(form="keplerian_eccentric")[5])
             e = q["e"]
             resid = (E - e * math.sin(E) - arr[5]) if not hyp else (e * math.sinh(E) - E - arr[5])
             okk = abs(resid) <= 1e-7 and (angdiff(E, Eref) <= 1e-6 if not hyp else abs(E - Eref) <= 1e-6 * max(1, abs(Eref)))
@@ -193,7 +212,7 @@ def main(inp, outp):
             clause("the anomaly returned for a mean anomaly solves Kepler's equation (also for M < 0 and M > pi)", okk, "forms/kepler-equation",
                    f"e={e} M={arr[5]}: E={E}, residual {resid:.3g}, expected E={Eref}", data)
         # derived orbit quantities
-        inf = StateVector(exp["cartesian"], DATE, "cartesian", "EME2000").infos
+        inf = StateVector(exp["cartesian"], DATE, "cartesian", FRAME).infos
         checks = [("speed (vis-viva)", inf.v, math.sqrt(q["v2"]) * V0), ("energy", inf.energy, q["energy"] * V0 ** 2),
                   ("pericenter", inf.rp, q["rp"] * L0), ("radius", inf.r, q["r"] * L0), ("mean motion", inf.n, math.sqrt(abs(q["n2"])) / T0)]
         if not hyp:
@@ -221,7 +240,7 @@ def main(inp, outp):
     for _ in range(job.get("nstates", 0)):
         hypo = rng.random() < 0.35
         e = float(10 ** rng.uniform(math.log10(1.001), math.log10(20))) if hypo else float(10 ** rng.uniform(-4, math.log10(0.99)))
-        rp = float(rng.uniform(6.6e6, 4e7))
+        rp = float(rng.uniform(0.94, 5.7)) * L0
         a = rp / (1 - e)
         i = float(rng.uniform(0.01, math.pi - 0.01))
         numax = math.acos(-1 / e) * 0.95 if hypo else math.pi
@@ -233,13 +252,13 @@ def main(inp, outp):
         for e_ in (0.85, 0.93, 0.97, 0.985):
             for w_ in (3.3, 5.9):
                 for m_ in (0.02, 0.1, 0.17, 0.3, 0.6, 1.0, 2.0, 3.0):
-                    k_ = StateVector([2.66e7, e_, 1.1, 0.3, w_, m_], DATE, "keplerian_mean", "EME2000").copy(form="keplerian")
+                    k_ = StateVector([3.8 * L0, e_, 1.1, 0.3, w_, m_], DATE, "keplerian_mean", FRAME).copy(form="keplerian")
                     states.append(([float(x) for x in k_], False))
     for wk in job.get("walks", []):
         for kep, hypo in states:
             if hypo and any(f in ELLIPTIC_ONLY for f in wk):
                 continue
-            base = StateVector(kep, DATE, "keplerian", "EME2000")
+            base = StateVector(kep, DATE, "keplerian", FRAME)
             ref = np.asarray(base.copy(form="cartesian"), float)
             try:
                 cur = base.copy(form=wk[0])
